@@ -61,6 +61,12 @@ def _single_value(f, ex, name):
 
 
 def run(F, rep):
+    _run(F, rep)
+    if getattr(F, "cfg", "dev") == "dev":
+        vint_rule(F, rep, "C03-VINT")
+
+
+def _run(F, rep):
     rep.explanation = EXPLANATION
     rep.undecided = UNDECIDED
     rep.assumptions = ["Vec preserves insertion order; HashMap<String, usize> is used for lookup only"]
@@ -381,3 +387,105 @@ def run(F, rep):
                 rep.ob("C03-BATCH", "%s loads batches 0..get_no_contig_batches in order" % f.key.rsplit("::", 1)[-1], ok, site=site_of(f, t),
                        key="C03-BATCH | %s | load loop" % f.key)
     rep.floor("C03-BATCH", nld, 6, "load_contig_batch call sites")
+
+
+# ---------------------------------------------------------------- collection varint (prefix code of the metadata streams)
+AGC_THR = [1 << 7, (1 << 7) + (1 << 14), (1 << 7) + (1 << 14) + (1 << 21), (1 << 7) + (1 << 14) + (1 << 21) + (1 << 28)]      # AGC v3 (format rule, not ragc's source)
+AGC_PREF = [0x00, 0x80, 0xC0, 0xE0, 0xF0]
+
+
+def agc_cvarint(x):
+    """AGC v3 collection varint of a u32: the oracle (transcribed from the format rule)"""
+    if x < AGC_THR[0]:
+        return [x]
+    for i in (1, 2, 3):
+        if x < AGC_THR[i]:
+            n = x - AGC_THR[i - 1]
+            return [AGC_PREF[i] + (n >> (8 * i))] + [(n >> (8 * j)) & 0xff for j in range(i - 1, -1, -1)]
+    n = x - AGC_THR[3]
+    return [AGC_PREF[4]] + [(n >> (8 * j)) & 0xff for j in (3, 2, 1, 0)]
+
+
+def vint_points():
+    lo = [0] + AGC_THR
+    hi = [t - 1 for t in AGC_THR] + [(1 << 32) - 1]
+    pts = set()
+    for a, b in zip(lo, hi):
+        for d in (0, 1, 2, 127, 128, 255, 256, 257, 65535, 65536, 65537, (1 << 24) - 1, 1 << 24, (1 << 24) + 1):
+            for x in (a + d, b - d):
+                if a <= x <= b:
+                    pts.add(x)
+        pts.add((a + b) // 2)
+    return sorted(pts)
+
+
+_VINT = {}
+
+
+def vint_eval(F):
+    if id(F) in _VINT:
+        return _VINT[id(F)]
+    from vecint import VecInterp
+    from absint import Undecidable, Panic
+    enc, dec = F.funcs.get(COL.replace("CollectionV3::", "CollectionVarInt::") + "encode"), F.funcs.get(COL.replace("CollectionV3::", "CollectionVarInt::") + "decode")
+    res = {"n": 0, "rt": [], "fmt": [], "trunc": [], "undec": None, "enc": enc, "dec": dec}
+    if not enc or not dec:
+        _VINT[id(F)] = res
+        return res
+
+    def decode(buf):
+        it = VecInterp(F)
+        env = {1: ("ref", 9000, ()), 9000: ("refval", list(buf))}
+        r = it.run(dec, env, 0, None)
+        return r, list(it.target(env[9000]))
+    try:
+        for x in vint_points():
+            res["n"] += 1
+            out = []
+            try:
+                VecInterp(F).call(enc, [("refval", out), x])
+            except Panic as e:
+                res["rt"].append("encode(%d) panics (%s)" % (x, e))
+                continue
+            if list(out) != agc_cvarint(x):
+                res["fmt"].append("%d is written as %s, AGC v3 writes %s" % (x, list(out), agc_cvarint(x)))
+            try:
+                r, rest = decode(list(out) + [0x5a])
+                if not (isinstance(r, dict) and r.get("__var") == "Ok" and r.get("0") == x and rest == [0x5a]):
+                    res["rt"].append("%d is written as %s and read back as %s (bytes left: %d)" % (x, list(out), r.get("0") if isinstance(r, dict) else r, len(rest) - 1))
+            except Panic as e:
+                res["rt"].append("decode panics on the encoding of %d (%s)" % (x, e))
+            for cut in range(len(out)):
+                try:
+                    r, rest = decode(list(out)[:cut])
+                    if not (isinstance(r, dict) and r.get("__var") == "Err"):
+                        res["trunc"].append("the first %d of %d bytes of the encoding of %d are accepted" % (cut, len(out), x))
+                except Panic as e:
+                    res["trunc"].append("decode panics on the first %d of %d bytes of the encoding of %d (%s)" % (cut, len(out), x, e))
+    except Undecidable as e:
+        res["undec"] = str(e)
+    _VINT[id(F)] = res
+    return res
+
+
+def vint_rule(F, rep, rule, want=("rt", "fmt", "trunc")):
+    """The prefix code used for every number in the collection streams: CollectionVarInt::encode / decode are
+    interpreted (MIR, vectors as values) at both ends of each of the five length classes and at every byte-carry
+    point inside them (values +-1, +-255..257, +-65535..65537, +-2^24 around the ends).  Between those points both
+    bodies only subtract/add a class constant and split/merge bytes with constant shifts, so a wrong threshold,
+    prefix, mask or shift constant on either side shows at one of the probed values."""
+    r = vint_eval(F)
+    if not rep.floor(rule, (1 if r["enc"] else 0) + (1 if r["dec"] else 0), 2, "CollectionVarInt::encode / decode"):
+        return
+    site = "%s:%d" % (r["enc"].file, r["enc"].line_lo)
+    und = r["undec"]
+    for kind, what in (("rt", "decode(encode(x)) = x and exactly the encoding is consumed, at both ends of every length class and every byte-carry point"),
+                       ("fmt", "encode(x) is the AGC v3 prefix code (0xxxxxxx | 10.. | 110.. | 1110.. | 11110000 + 4 bytes, class offsets 2^7, +2^14, +2^21, +2^28) on the same points"),
+                       ("trunc", "every truncated encoding is refused with an error, not a panic")):
+        if kind not in want:
+            continue
+        bad = r[kind]
+        rep.ob(rule, "collection varint: " + what, und is None and not bad,
+               detail=("undecidable construct: %s" % und) if und else ("%d values evaluated" % r["n"] if not bad else "%d failures, e.g. %s" % (len(bad), "; ".join(bad[:3]))),
+               site=site, key="%s | collection varint %s" % (rule, kind))
+    rep.stat("collection_varint_points", r["n"])
